@@ -145,8 +145,10 @@ impl PatchIndexHeader {
             u32::from_le_bytes([data[pos], data[pos + 1], data[pos + 2], data[pos + 3]]);
         pos += 4;
 
-        // Read block descriptors
-        let mut blocks = Vec::with_capacity(block_count as usize);
+        // Read block descriptors (8 bytes each). Reserve no more than the
+        // remaining input can hold; the count is checked as they are read.
+        let max_blocks = data.len().saturating_sub(pos) / 8;
+        let mut blocks = Vec::with_capacity((block_count as usize).min(max_blocks));
         for _ in 0..block_count {
             if pos + 8 > data.len() {
                 return Err(PatchIndexError::TruncatedHeader {
